@@ -200,5 +200,11 @@ def run(ctx):
     ctx.run("C12-A1", "every checker rule is reachable from CheckerContext::check; breach classes map to wired leaves; groups aggregate", a1_all_wired, floor=30)
     ctx.run("C12-A2", "no Result produced inside the checker is dropped", a2_no_dropped, floor=1)
     ctx.run("C12-A4", "capacity verdicts are component-wise (can_fit), never the partial order of multi-dimensional loads", a4_componentwise_capacity, floor=1)
+    try:
+        from . import c01
+        ctx.run("C01-O4", "can_fit is asked of the capacity / available resource about the load (roles not swapped)", c01.o4_can_fit_roles, floor=8)
+        ctx.run("C01-O3", "can_fit(capacity, load) iff load <= capacity in every dimension", c01.o3_can_fit_law, floor=7)
+    except (ImportError, AttributeError):
+        pass
     ctx.run("C12-Q1", "no checker comparison relates a value to itself (a constant verdict)", q1_no_self_comparison, floor=1)
     ctx.run("C12-A3", "every leaf rule can fail: its error-producing sites are reachable", a3_rules_can_fail, floor=10)
